@@ -25,7 +25,14 @@ HOW = {'eval': 'replay driver `eval` (FileBuilder::eval_string; payload = all to
 # (position, word): `let f = func(env) => env; let r = f(2);` builds and r == 2 -- the reserved word `env` is accepted as a
 # parameter name and shadows the environment symbol inside the body (every other reserved word is refused when the call binds
 # it).  Clause: "binding a reserved word is an error" / _index.md "reserved ... can not be used as a named binding".
-KNOWN = [('func_param', 'env'), ('func_param2', 'env')]
+KNOWN = [('func_param', 'env'), ('func_param2', 'env'), ('map_param', 'env'), ('reduce_param', 'env')]
+# `ucg build` only (the type checker; eval_string is right): a parameter whose name is also an EARLIER top-level binding is typed as that
+# binding instead of hiding it: `let q = "s"; let f = func(q) => q + 1; let r = f(1);` -> "Type error: Expected str but got int" (r is 2
+# under eval_string).  Clause: "a function sees ... the bindings that existed where it was defined plus its arguments" (the argument
+# must hide the outer name).  Excluded from the buildfile runs exactly: programs in which a function parameter is also the name of an
+# earlier top-level binding that is not an integer (the arguments of all generated calls are integers, so an integer outer binding
+# happens to type-check).  map / filter / reduce with an inline function, later bindings, module locals and `item` are not affected.
+KNOWN_BUILD = 'typed_shadow'
 
 POOL = ['a', 'b', 'c', 'd', 'p', 'q', 'r', 'x', 'y', 'item', 'u', 'acc']
 
@@ -167,8 +174,9 @@ class Gen:
     """random valid programs over a small pool of names, so that parameter names, module locals, tuple fields and `item` coincide
     with top-level bindings made before and after them"""
 
-    def __init__(self, rnd):
+    def __init__(self, rnd, avoid_typed_shadow=False):
         self.rnd = rnd
+        self.avoid_typed_shadow = avoid_typed_shadow
         self.scope = {}
         self.stmts, self.after = [], []
 
@@ -231,7 +239,8 @@ class Gen:
             self.stmts.append('let %s = %s;' % (name, src(e)))
             sc[name] = ev(e, sc)
         elif r < 0.58:
-            params = rnd.sample(POOL, rnd.randint(1, 2))
+            pool = [n for n in POOL if isinstance(sc.get(n, 0), int)] if self.avoid_typed_shadow else POOL    # KNOWN_BUILD
+            params = rnd.sample(pool, rnd.randint(1, 2))
             inner = dict(sc)
             inner.update((p, 0) for p in params)             # inside the body the parameters hide outer bindings of the same name
             body = self.expr(inner, 2)
@@ -267,10 +276,10 @@ class Gen:
         return True
 
 
-def programs(rnd, n, length):
+def programs(rnd, n, length, avoid_typed_shadow=False):
     out = []
     for _ in range(n):
-        g = Gen(rnd)
+        g = Gen(rnd, avoid_typed_shadow)
         while len(g.stmts) < length and g.step():
             pass
         out.append(g)
@@ -305,7 +314,7 @@ def standin_prefix_values_build(tier, seed):
     """the same programs through the type checker + VM; values are pinned by `select (name == value) => {true = 1}` statements
     (no default: a different value is a build error) placed right after the binding AND at the end of the program"""
     rnd = random.Random(seed + 1000)
-    progs = programs(rnd, 150 if tier == 'thorough' else 30, 10)
+    progs = programs(rnd, 150 if tier == 'thorough' else 30, 10, avoid_typed_shadow=True)
     cases = []
     for g in progs:
         lines, tail, n = [], [], 0
@@ -321,7 +330,7 @@ def standin_prefix_values_build(tier, seed):
             prev = aft
         cases.append('\n'.join(lines + tail))
     res = R.driver('buildfile', cases)
-    bound = '%d seeded programs as in prefix_values, each binding pinned to the reference value right after it is made and again at the end of the file' % len(progs)
+    bound = '%d seeded programs as in prefix_values, each binding pinned to the reference value right after it is made and again at the end of the file [KNOWN_BUILD: no parameter named like an earlier non-integer binding]' % len(progs)
     for src_, (st, out) in zip(cases, res):
         if st != 'OK':
             return dict(name='prefix_values_build', bound=bound, cases=len(cases), status='violation',
@@ -350,6 +359,9 @@ def scope_cases(names):
             # a parameter hides an outer binding inside, leaves it untouched outside, and does not survive the call
             cs.append(('let %s = 100;\n%slet f = func(%s) => %s + 1;\nlet res = f(1);\nlet after = %s;' % (n, G, n, n, n), {'res': '2', 'after': '100', n: '100'}))
             cs.append(('let f = func(%s) => %s + 1;\n%slet res = f(1);\nlet %s = 7;\nlet again = f(2);' % (n, n, G, n), {'res': '2', 'again': '3', n: '7'}))
+            cs.append(('let f = func(%s) => %s + 1;\n%slet res = f(1);\nlet %s = "s";\nlet again = f(2);' % (n, n, G, n), {'res': '2', 'again': '3', n: '"s"'}))
+            for outer, shown in (('"s"', '"s"'), ('{k = 1}', '{k=1}'), ('func(w) => w', 'NULL'), ('[1]', '[1]')):
+                cs.append(('let %s = %s;\n%slet f = func(%s) => %s + 1;\nlet res = f(1);\nlet after = %s;' % (n, outer, G, n, n, n), {'res': '2', n: shown, KNOWN_BUILD: 1}))
             cs.append(('let f = func(%s) => %s + 1;\n%slet res = f(1);\nlet leak = %s;' % (n, n, G, n), None))
             cs.append(('let f = func(z, %s) => %s + z;\nlet res = f(1, 2);\n%slet leak = %s;' % (n, n, G, n), None))
             cs.append(('let l = map(func(%s) => %s + 1, [1, 2]);\n%slet leak = %s;' % (n, n, G, n), None))
@@ -392,6 +404,9 @@ def scope_cases(names):
 
 
 def check_scope(mode, cs, name, bound):
+    if mode == 'buildfile':
+        cs = [c for c in cs if not (c[1] and KNOWN_BUILD in c[1])]
+    cs = [(p, None if e is None else dict((k, v) for k, v in e.items() if k != KNOWN_BUILD)) for p, e in cs]
     progs = []
     for p, exp in cs:
         if mode == 'buildfile' and exp:
